@@ -152,7 +152,10 @@ fn full(args: &[&str], timeout: Duration) -> String {
   let st: Arc<Mutex<&'static str>> = Arc::new(Mutex::new("start"));
   let st2 = st.clone();
   let (tx, rx) = mpsc::channel();
-  let spawned = std::thread::Builder::new().stack_size(64 << 20).spawn(move || {
+  // worker stack: 64 MiB by default; C05_STACK_MB=8 reproduces the CLI (parsing on the 8 MiB main thread)
+  let stack_mb: usize =
+    std::env::var("C05_STACK_MB").ok().and_then(|s| s.parse().ok()).unwrap_or(64);
+  let spawned = std::thread::Builder::new().stack_size(stack_mb << 20).spawn(move || {
     let st3 = st2.clone();
     let r = catch_unwind(AssertUnwindSafe(move || full_pipeline(mods, st3)));
     let ans = match r {
@@ -182,7 +185,10 @@ fn main() {
     }
   }));
   // the checker runs on rayon's global pool: give its workers the same 64 MiB stack
-  let _ = rayon::ThreadPoolBuilder::new().stack_size(64 << 20).build_global();
+  // (C05_RAYON_STACK_MB=2 reproduces rayon's default, which is what the CLI and the LSP server use)
+  let rayon_mb: usize =
+    std::env::var("C05_RAYON_STACK_MB").ok().and_then(|s| s.parse().ok()).unwrap_or(64);
+  let _ = rayon::ThreadPoolBuilder::new().stack_size(rayon_mb << 20).build_global();
   let timeout_ms: u64 =
     std::env::var("C05_TIMEOUT_MS").ok().and_then(|s| s.parse().ok()).unwrap_or(20000);
   use std::io::{BufRead, Write};
